@@ -62,7 +62,7 @@ impl Meta {
             full: v["full"].as_bool().unwrap(),
         }
     }
-    fn cfg(&self) -> YuvConfig {
+    pub fn cfg(&self) -> YuvConfig {
         cfg_full(if self.wide { 10 } else { 8 }, self.full, (0, 0), self.m, self.t, self.p)
     }
 }
